@@ -1134,12 +1134,20 @@ def violated(name, info=None, model=True):
     return prove(name, False, info=info)
 
 
-def witness(name):
+def witness(name, cond=None):
     """Reachability witness: this program point is reached with a satisfiable
-    path condition."""
+    path condition (and, if given, with `cond` true)."""
     ctx = cur()
     if ctx.witnesses.get(name) == "sat":
         return
+    if cond is not None:
+        if cond is False:
+            return
+        if cond is not True:
+            r, _m = ctx.check([bv(cond)])
+            if r == "sat" or ctx.witnesses.get(name) is None:
+                ctx.witnesses[name] = r
+            return
     if ctx.model is not None:
         ctx.witnesses[name] = "sat"
         return
